@@ -20,6 +20,8 @@ var rules = []*Rule{
 	{ID: "R8", Title: "KEY-EQUALITY: a hash hit is only a candidate", Props: []string{"C09"}, Run: ruleR8},
 	{ID: "R10", Title: "DECODER-VALIDATION: nothing is returned before it is checked", Props: []string{"C14", "C07"}, Run: ruleR10},
 	{ID: "R11", Title: "COPY-LOOP: every record read is accounted for", Props: []string{"C01", "C05", "C07", "C11", "C12", "C17"}, Run: ruleR11},
+	{ID: "R12", Title: "EFFECT-CONFINEMENT: who can change a log file", Props: []string{"C19", "C20"}, Run: ruleR12},
+	{ID: "R15", Title: "FLOCK-PAIRING", Props: []string{"C19"}, Run: ruleR15},
 	{ID: "R4", Title: "LOCK-ORDER: acyclic acquisition graph, no re-acquisition", Props: []string{"C08"}, Run: ruleR4},
 }
 
